@@ -85,6 +85,7 @@ def checkEng (params : List String) (lines : List String) : CaseResult := Id.run
   let mut implListening := true
   let mut hist : List (Option Nat) := []       -- events observed while the implementation listened
   let mut implFires := 0
+  let mut prefixReported := false
   let mut n := 0
   for (op, obs) in segs do
     n := n + 1
@@ -135,6 +136,14 @@ def checkEng (params : List String) (lines : List String) : CaseResult := Id.run
         implListening := false
     | "answer" :: "T" :: occ :: _ =>
       let k := (occ.toNat?).getD 0
+      -- "has fired exactly k times whenever every definition has been matched exactly k times" — at EVERY such moment of
+      -- the history, not only at its end (evaluated when the token comes back: everything before has been observed)
+      if par && d ≥ 2 && !prefixReported then
+        let cs := (List.range d).map (matchCount hist)
+        let mn := cs.foldl min (cs.headD 0)
+        if cs.all (· == mn) && implFires != mn then
+          r := { r with specs := s!"pm_exact_engine: every definition observed {mn} times after op {n - 1}, fired {implFires}" :: r.specs }
+          prefixReported := true
       if requested then
         r := { r with specs := s!"catch_fired_without_event: op {n}" :: r.specs }
       if k < rounds then
